@@ -1,10 +1,10 @@
 CONSTANTS
   Procs = {1, 2}
-  Qs = {"zone", "other", "plain"}
+  Qs = {"zone", "plain"}
   Runs = 1
-  MaxNow = 4
+  MaxNow = 2
   Budget = 1
-  AdvKinds <- AllKinds
+  AdvKinds = {"Short", "BadSig", "Empty", "AdvKey"}
   Dev = {}
   Mut = {}
   Atomic = FALSE
